@@ -38,6 +38,13 @@ CHECKS = {
         "Trusted: nesting depth of inputs bounded (<= 64) as the property allows; the shard watchdog's CPU accounting.",
         "DESIGN.md section 5, C10",
     ),
+    "C11": (
+        "extent monitor: the parser's root span vs the first/last non-comment token found by an independent scanner; junk-suffix and irregularity-insertion metamorphism",
+        "Every seed (repository sources, grammar-generated terms, generated programs), every seed + junk suffix and every seed with a lexical irregularity inserted at token "
+        "boundaries is parsed by the real parser; an accepted parse whose root span differs from the scanner's code extent, or that contains an irregular token outside comments, is a violation. Exploration.",
+        "Trusted: the harness scanner's reading of the lexical grammar.",
+        "DESIGN.md section 5, C11",
+    ),
     "C08": (
         "invariant monitor over zydeco_utils::graph on every digraph with <=4 nodes (exhaustive) against transitive-closure SCCs, three drain protocols; language-level permutation metamorphism",
         "Every adjacency matrix on 1..4 nodes incl. self-loops and target-only nodes is run through Kosaraju + top()/release() three ways and through obliviate/keep_only; "
